@@ -77,7 +77,14 @@ def validate(ctx: Ctx, family: str, module: str, prefixes, *, min_events, chunk=
     ev, meta = load(d, family)
     summ = json.loads((d / "summary.json").read_text())
     if len(ev) < min_events:
-        raise Machinery(f"suite family {family}: only {len(ev)} events (expected at least {min_events})")
+        # On the unchanged tree the number of recorded calls is fixed (several times the minimum).  A changed library may call
+        # the modelled function less often -- e.g. a fast path in front of it -- and that must not turn the whole check into a
+        # machinery failure: the recorded events are still validated, the shortfall is reported in the evidence, and the other
+        # steps of the check decide.
+        ctx.notes.append(f"SUITE {family}: only {len(ev)} distinct events were recorded (at least {min_events} on the unchanged tree): "
+                         "the library reaches the modelled function less often than the pinned tree does")
+        if not ev:
+            return 0
     ctx.notes.append(f"SUITE {family}: {len(ev)} distinct events of {summ['families'][family]['calls']} recorded calls "
                      f"({'cached recording' if cached else 'fresh recording'}; {summ.get('pytest_tail')})")
     for i, m in enumerate(meta[:: max(1, len(meta) // 300)]):
